@@ -47,6 +47,7 @@ type script struct {
 
 type world struct {
 	gw        *e2e.Gateway
+	infos     []*clusters.ClusterInfo // every cluster of the world (for isolate)
 	ups       map[string]*e2e.Upstream // cluster -> its upstream
 	mu        sync.Mutex
 	scripts   map[string]*script
@@ -152,7 +153,10 @@ func newWorld() (*world, error) {
 		if edit != nil {
 			edit(uc)
 		}
-		_, err := w.gw.AddCluster(uc, health, ready)
+		ci, err := w.gw.AddCluster(uc, health, ready)
+		if ci != nil {
+			w.infos = append(w.infos, ci)
+		}
 		return err
 	}
 	yes := true
@@ -193,8 +197,10 @@ func newWorld() (*world, error) {
 	// another process (another property's gateway rig!) can bind the freed port, and then answers the forwarded
 	// request itself (seen once in a thorough run: 503 "cluster not being proxied" from a foreign gateway).
 	// Port 1 (tcpmux) is privileged and unbound: connection refused.
-	if _, err := w.gw.AddCluster(e2e.Cluster(clDown, "http://127.0.0.1:1"), e2e.AlwaysReady, true); err != nil {
+	if ci, err := w.gw.AddCluster(e2e.Cluster(clDown, "http://127.0.0.1:1"), e2e.AlwaysReady, true); err != nil {
 		return nil, err
+	} else {
+		w.infos = append(w.infos, ci)
 	}
 	return w, nil
 }
